@@ -97,6 +97,7 @@ type State struct {
 	Worlds  map[int]map[string]T // ghost state per world: name -> term
 	PC      []T                  // path condition (assumptions)
 	PCNote  []string
+	Bufs    map[int]*bufInfo // byte buffers under construction (immutable entries, copied on fork)
 	Written map[int]bool    // heap objects written (discovery)
 	GWrit   map[string]bool // ghost names written (discovery)
 	Depth   int
@@ -118,6 +119,12 @@ func (s *State) clone() *State {
 			nm[k] = v
 		}
 		n.Worlds[w] = nm
+	}
+	if s.Bufs != nil {
+		n.Bufs = make(map[int]*bufInfo, len(s.Bufs))
+		for k, b := range s.Bufs {
+			n.Bufs[k] = b
+		}
 	}
 	n.PC = append([]T(nil), s.PC...)
 	n.PCNote = append([]string(nil), s.PCNote...)
